@@ -253,7 +253,10 @@ def drawing_record(backend, tl, doc, opts, data, kind):
     ih = opts["initialHeight"] - mg["top"] - mg["bottom"]
     L = iw if horiz else ih
     scale = tl.options["scale"]
-    dom = scale.domain()
+    # an explicitly given axis domain is the CALLER's (not what the scale reports after the export); a derived one is read back
+    dom = list(opts["domain"]) if opts.get("domain") else scale.domain()
+    if kind != "linear":
+        dom = [as_datetime(x) for x in dom]
     nodes = layout_of(tl)
     by_id = {d["id"]: d for d in data}
     nodeH = max((n["w5"] if not horiz else n["h5"]) for n in nodes)
